@@ -125,6 +125,20 @@ func H_C20_dirichlet_errors_later() {
 	verifReach("non-positive")
 }
 
+// H_C20_dirichlet_zero: the border of the parameter domain: a parameter that is exactly 0 (at any position) is an error.
+// bounds: n = 3; one parameter exactly 0 at position 0, 1 or 2, the others 1 (exponential variates: one draw each); factor symbolic in (0,1e6]; at most 6 draws per path
+// outside: other valid parameters around the zero one (H_C20_dirichlet_errors_later with symbolic ones)
+//verif: maxrand=6 maxsteps=200000 timeout=20000
+func H_C20_dirichlet_zero() {
+	at := nondetRange(0, 2)
+	factor := vfC20Factor()
+	alpha := []float64{1, 1, 1}
+	alpha[at] = 0
+	_, err := Dirichlet(factor, alpha...)
+	verifAssert(err != nil, "parameter = 0: error")
+	verifReach("zero parameter")
+}
+
 // H_C20_dirichlet_unit: Dirichlet(factor, 1,...,1) (the call made by the weighted bootstrap; exponential variates): n strictly positive finite components summing to factor.
 // bounds: n in {3,4}; factor symbolic in (0,1e6]; every outcome of the draws with at most n+2 draws of math/rand per path (rejection loop "u <= 1e-7" cut after 2 extra draws in total: longer rejection runs repeat the same body on fresh draws)
 // outside: n > 4; IEEE rounding is outside the claim: floats are exact reals; ln uninterpreted (ln u < 0 on (0,1))
